@@ -238,3 +238,40 @@ func C16_Update()                 { focus = "C16"; sceneCtxMsg(opUpdate, cmOne) 
 func C13_Bind()                   { focus = "C13"; sceneBindingMsg(opBind, bmPlain) }
 func C13_Enable()                 { focus = "C13"; sceneBindingMsg(opEnable, bmPlain) }
 func C20_DeterminismTwoContexts() { focus = "C20"; sceneDeterminismTwo() }
+
+// ---------------------------------------------------------------- thorough tier (in addition to the quick harnesses)
+var (
+	nb3      = ReqOpts{MaxProv: 3, OnlyState: 0}                               // batch start, up to 3 listed providers
+	exSlash2 = ReqOpts{MaxProv: 2, OnlyState: -1, OneOutput: true}             // expiry, two slashed bindings, all lifecycle states
+	rsAll    = ReqOpts{MaxProv: 2, OnlyState: -1, Module: true}                // respond, slashing and callbacks together
+	exRst    = ReqOpts{MaxProv: 2}                                             // same-block restart with two providers
+	nbBoth   = ReqOpts{MaxProv: 1, OnlyState: 0, NT: 1, NV: 1, AllBound: true} // both promotion kinds (two symbolic discounts)
+)
+
+func C01T_Expiry()   { focus = "C01"; sceneExpiry(exSlash2) }
+func C01T_NewBatch() { focus = "C01"; sceneNewBatch(nb3) }
+func C01T_Restart()  { focus = "C01"; sceneRestart(exRst) }
+func C02T_Expiry()   { focus = "C02"; sceneExpiry(exSlash2) }
+func C02T_NewBatch() { focus = "C02"; sceneNewBatch(nb3) }
+func C03T_Expiry()   { focus = "C03"; sceneExpiry(exSlash2) }
+func C03T_Respond()  { focus = "C03"; sceneRespond(rsAll) }
+func C04T_Expiry()   { focus = "C04"; sceneExpiry(exSlash2) }
+func C04T_Respond()  { focus = "C04"; sceneRespond(rsAll) }
+func C06T_NewBatch() { focus = "C06"; sceneNewBatch(nb3) }
+func C07T_NewBatch() { focus = "C07"; sceneNewBatch(nbBoth) }
+func C08T_Expiry()   { focus = "C08"; sceneExpiry(exSlash2) }
+func C09T_Expiry()   { focus = "C09"; sceneExpiry(exSlash2) }
+func C10T_Restart()  { focus = "C10"; sceneRestart(exRst) }
+func C11T_Restart()  { focus = "C11"; sceneRestart(exRst) }
+func C11T_Expiry()   { focus = "C11"; sceneExpiry(exSlash2) }
+func C12T_Respond()  { focus = "C12"; sceneRespond(rsAll) }
+func C12T_NewBatch() { focus = "C12"; sceneNewBatch(ReqOpts{MaxProv: 3, OnlyState: 0, Module: true}) }
+func C14T_Expiry()   { focus = "C14"; sceneExpiry(exSlash2) }
+func C16T_Expiry()   { focus = "C16"; sceneExpiry(exSlash2) }
+func C16T_Restart()  { focus = "C16"; sceneRestart(exRst) }
+func C20T_Expiry()   { focus = "C20"; sceneExpiry(exSlash2) }
+func C20T_NewBatch() { focus = "C20"; sceneNewBatch(nb3) }
+func C20T_DeterminismExpiry() {
+	focus = "C20"
+	sceneDeterminism(ReqOpts{MaxProv: 2, OnlyState: -1, NoSlash: true, OneOutput: true}, true)
+}
